@@ -257,7 +257,16 @@ func (c *Scheme[E]) Reconstruct(shares ...*Share[E]) (*Secret[E], error) {
 // ConvertShareToAdditive converts this Shamir share to an additive share by multiplying
 // by the appropriate Lagrange coefficient. The resulting additive shares can
 // be summed to reconstruct the secret.
-func (*Scheme[E]) ConvertShareToAdditive(s *Share[E], quorum *unanimity.Unanimity) (*additive.Share[E], error) {
+func (c *Scheme[E]) ConvertShareToAdditive(s *Share[E], quorum *unanimity.Unanimity) (*additive.Share[E], error) {
+	if s != nil && quorum != nil && len(s.v) == 0 && quorum.Shareholders().Contains(s.id) {
+		// A shareholder that lies in every maximal unqualified set holds no piece and is never
+		// a pivot: its additive share is the identity.
+		share, err := additive.NewShare(s.id, c.g.OpIdentity(), quorum)
+		if err != nil {
+			return nil, errs.Wrap(err)
+		}
+		return share, nil
+	}
 	return s.ToAdditive(quorum)
 }
 
